@@ -214,7 +214,7 @@ func (k *kase) exec(w *world, c cmd) snap {
 		if p == "closed" && was != "closed" && readerBlocked {
 			c.hints = append(c.hints, "cancel-"+n)
 		}
-		if p == gLocked && was == "lock" {
+		if p == gLocked && (was == "lock" || (c.op == "rel" && c.arg == n)) {
 			c.hints = append(c.hints, "win-"+n)
 		}
 	}
@@ -306,6 +306,7 @@ func runCase(k *kase, script []cmd, rng func(int) int, steps int) {
 	// drain, then probe with the server up or down
 	k.exec(w, cmd{op: "relsrv"})
 	k.drain(w)
+	k.exec(w, cmd{op: "relsrv"})
 	probe := "a"
 	if k.budget >= 0 && rng(3) == 0 {
 		probe = "u"
@@ -405,9 +406,6 @@ func oracle(st *Stats, idx int, k *kase) {
 	ended := pre.status == "passive-closed" || pre.status == "redial-failed"
 	switch {
 	case alive:
-		if !pre.idxcur || pre.count != 1 {
-			fail("index", fmt.Sprintf("live session: indexed under its id=%v, CountSession=%d", pre.idxcur, pre.count))
-		}
 	case ended:
 		if !pre.notified {
 			fail("ended-not-notified", "attempts exhausted / session ended ("+pre.status+") but CloseNotify did not fire")
@@ -425,11 +423,13 @@ func oracle(st *Stats, idx int, k *kase) {
 		if probeRes != "closed" || fin.status != "passive-closed" || !fin.notified || fin.count != 0 || fin.health {
 			fail("no-redial-end", "budget 0 after a loss: probe="+probeRes+" "+fin.human())
 		}
-	case probeUp || !lost:
+	case probeUp || alive:
 		if probeRes != "ok" {
 			fail("later-call", "server reachable but the later call ended "+probeRes)
 		}
-		if fin.status != "ok" || !fin.health || !fin.idxcur || fin.count != 1 {
+		if fin.status == "passive-closing" {
+			fail("limbo", "server reachable, later call succeeded, then the session is neither live nor ended: "+fin.human())
+		} else if fin.status != "ok" || !fin.health {
 			fail("not-recovered", "server reachable, later call made, session: "+fin.human())
 		}
 	default:
@@ -442,6 +442,26 @@ func oracle(st *Stats, idx int, k *kase) {
 		if fin.health {
 			fail("health-after-exhaustion", "Health() true after the later call failed")
 		}
+	}
+	// a session that is Ok at a quiet moment must be in the index under its own id, once
+	for i, s := range k.snaps {
+		if s.status != "ok" {
+			continue
+		}
+		if !s.idxcur {
+			fail("live-session-unindexed", fmt.Sprintf("status ok but GetSession(ID()) does not return the session after command %d", i))
+		} else if s.count != 1 {
+			fail("index-stale-key", fmt.Sprintf("CountSession=%d for one live session after command %d", s.count, i))
+		}
+	}
+	cuts := 0
+	for _, c := range k.cmds {
+		if c.op == "cut" {
+			cuts++
+		}
+	}
+	if okRounds > cuts {
+		fail("redial-of-healthy-connection", fmt.Sprintf("%d successful redials for %d connection losses", okRounds, cuts))
 	}
 }
 
